@@ -66,8 +66,8 @@ def _val(v: str):
 
 
 def _slot(sp: str, v: str):
-    if sp in ("-", "-a"):
-        return gen_ctx.Slot(None, None, False, _val(v))
+    if sp in ("-", "-a", "-u", "-o"):
+        return gen_ctx.Slot(None, None, False, _val(v), pspell=sp)
     cls, opt, shape = sp.split(",", 2)
     if opt not in ("0", "1", "4", "5", "7", "A"):
         raise ValueError("general union")
